@@ -139,7 +139,7 @@ def _composites():
 
 
 CFGS = {
-    'pmaxK': {'p': {'max': 30}, 'value': {'unit': 'K'}},
+    'pmaxK': {'p': {'max': 30, 'value': 4}, 'value': {'unit': 'K'}},
     'pvalmm': {'p': {'value': 5}, 'value': {'unit': 'mm'}},
     'arrmax': {'arr': {'max': 7}, 'value': {'unit': 'K'}},
     'plim': {'p_limits': {'value': (2, 9)}},
@@ -325,6 +325,12 @@ class World:
         self.mixins = set()
         self.bad = []
         self.n = 0
+        # the retained configuration (like Server.module_cfg): ONE object per configuration, every instance
+        # is created from a shallow copy of it (as SecNode does), so the nested dicts are shared
+        self.retained = {k: json.loads(json.dumps(v)) for k, v in CFGS.items()}
+
+    def conf(self):
+        return hashlib.sha1(json.dumps(self.retained, sort_keys=True, default=repr).encode()).hexdigest()[:12]
 
     def roots(self):
         from frappy.core import Writable
@@ -352,7 +358,7 @@ class World:
         return None
 
     def instantiate(self, x, c, cfg):
-        cfgdict = json.loads(json.dumps(CFGS[cfg] if isinstance(cfg, str) else cfg))
+        cfgdict = dict(self.retained[cfg]) if isinstance(cfg, str) else json.loads(json.dumps(cfg))
         cfgdict['description'] = 'an instance'
         try:
             self.inst[x] = self.cls[c](x, LoggerStub(x), cfgdict, self.srv)
@@ -417,6 +423,9 @@ def run_program(ops):
             errs[x] = err
         cur = w.describe(errs)
         ev['desc'] = cur
+        if act == 'instantiate' or not events:       # (only creating an instance touches the configuration)
+            conf = w.conf()
+        ev['conf'] = conf
         ev['bad'] = list(w.bad)
         # hint for the trace specification (TLC decides whether the deviation is admissible)
         ev['dev'] = any(cur.get(y) != d for y, d in prev.items() if y != x)
@@ -430,7 +439,7 @@ def run_group(programs):
     trace = []
     for i, ops in enumerate(programs):
         if i:
-            trace.append({'ev': 'reset', 'x': '', 'desc': {'_': '_'}, 'bad': [], 'dev': False})
+            trace.append({'ev': 'reset', 'x': '', 'desc': {'_': '_'}, 'bad': [], 'dev': False, 'conf': ''})
         trace += run_program(ops)
     texts = {}
     for ev in trace:
@@ -643,7 +652,7 @@ def run(chk):
     if traces:
         chk.sample({'program': glist[len(glist) // 2][0], 'desc_after_last_op': traces[len(glist) // 2][-1]['desc']})
     # code -> spec: random programs beyond the catalogue
-    n = 300 if quick else 3000
+    n = 250 if quick else 3000
     seeds = [chk.seed * 1000003 + i for i in range(n)]
     rtraces = pool_map(_random_trace, seeds)
     phase('random')
